@@ -9,26 +9,146 @@ open Klong
 /-- **drop_correct**: `b[a:] if a >= 0 else b[:a]` is Drop, for every count (negative,
     zero, overshooting) and every list -/
 theorem drop_correct {α} (a : Int) (b : List α) : implDrop a b = refDrop a b := by
-  sorry
+  unfold implDrop refDrop slice pyClamp
+  by_cases h : a ≥ 0
+  · simp only [h, if_true]
+    have h1 : ¬ a < 0 := by omega
+    simp only [h1, if_false]
+    by_cases h2 : a.toNat ≤ b.length
+    · have e1 : min a.toNat b.length = a.natAbs := by omega
+      rw [e1]
+      apply List.take_of_length_le
+      simp
+    · have e1 : min a.toNat b.length = b.length := by omega
+      rw [e1]
+      have : b.length ≤ a.natAbs := by omega
+      simp [List.drop_eq_nil_of_le this]
+  · simp only [h, if_false]
+    have h1 : a < 0 := by omega
+    simp only [h1, if_true]
+    simp
+    congr 1
+    omega
 
 /-- **reverse_correct**: `a[::-1]` is Reverse -/
 theorem reverse_correct {α} [Inhabited α] (b : List α) : implReverse b = refReverse b := by
-  sorry
+  unfold implReverse refReverse
+  apply List.ext_getElem
+  · simp
+  · intro i h1 h2
+    simp at h1
+    simp [List.getElem_reverse]
+    rw [List.getElem?_eq_getElem (by omega)]
+    simp
 
 /-- **rotate_correct**: `np.roll(b, a)` (element i moves to (i+a) mod n) is Rotate: drop
     `a!#b` elements from the end and append them to the front -/
 theorem rotate_correct {α} [Inhabited α] (a : Int) (b : List α) : implRotate a b = refRotate a b := by
-  sorry
+  unfold implRotate refRotate npRoll
+  by_cases hn : b.length = 0
+  · have : b = [] := List.eq_nil_of_length_eq_zero hn
+    subst this
+    simp
+  · simp only [hn, if_false]
+    have hnpos : (0 : Int) < (b.length : Int) := by omega
+    have hk0 : 0 ≤ a % (b.length : Int) := Int.emod_nonneg _ (by omega)
+    have hk1 : a % (b.length : Int) < (b.length : Int) := Int.emod_lt_of_pos _ hnpos
+    by_cases ha : a = 0
+    · subst ha
+      simp
+    · simp only [ha, if_false]
+      generalize hk : (a % (b.length : Int)).toNat = k
+      have hkn : k < b.length := by omega
+      have hkk : (k : Int) = a % (b.length : Int) := by omega
+      apply List.ext_getElem
+      · simp
+      · intro i h1 h2
+        simp at h1
+        simp only [List.getElem_map, List.getElem_range]
+        have hmod : ((i : Int) - a) % (b.length : Int) = ((i : Int) - k) % (b.length : Int) := by
+          rw [hkk, Int.sub_emod (↑i) a, Int.sub_emod (↑i) (a % _), Int.emod_emod]
+        rw [hmod]
+        rw [List.getElem_append]
+        by_cases hik : i < k
+        · have e : ((i : Int) - k) % (b.length : Int) = (i : Int) - k + b.length := by
+            rw [← Int.add_emod_right]
+            exact Int.emod_eq_of_lt (by omega) (by omega)
+          rw [e]
+          have hlen : i < (List.drop (b.length - k) b).length := by simp; omega
+          rw [dif_pos hlen, List.getElem_drop]
+          have e2 : ((i : Int) - k + b.length).toNat = b.length - k + i := by omega
+          rw [e2, List.getD_eq_getElem?_getD, List.getElem?_eq_getElem (by omega)]
+          simp
+        · have e : ((i : Int) - k) % (b.length : Int) = (i : Int) - k := by
+            exact Int.emod_eq_of_lt (by omega) (by omega)
+          rw [e]
+          have hlen : ¬ i < (List.drop (b.length - k) b).length := by simp; omega
+          rw [dif_neg hlen, List.getElem_take]
+          have e2 : ((i : Int) - k).toNat = i - (List.drop (b.length - k) b).length := by
+            simp; omega
+          rw [e2, List.getD_eq_getElem?_getD, List.getElem?_eq_getElem (by simp; omega)]
+          simp
 
 /-- **take_correct**: the tile / concatenate / slice arithmetic of `eval_dyad_take` is cyclic
     extraction of |a| elements from the front (back when negative) -/
 theorem take_correct {α} [Inhabited α] (a : Int) (b : List α) : implTake a b = refTake a b := by
   sorry
 
+/-- closed form of the reference Split: segment `i` is `b[i*a : i*a+a]` -/
+theorem refSplitN_formula {α} (a : Nat) (ha : 0 < a) :
+    ∀ (fuel : Nat) (b : List α), b.length < fuel →
+      refSplitN fuel a b =
+        (List.range ((b.length + a - 1) / a)).map (fun i => (b.drop (i * a)).take a) := by
+  intro fuel
+  induction fuel with
+  | zero => intro b h; omega
+  | succ fuel ih =>
+    intro b h
+    unfold refSplitN
+    by_cases hb : b = []
+    · subst hb
+      simp; omega
+    · have hlen : 0 < b.length := List.length_pos_iff.mpr hb
+      have hemp : b.isEmpty = false := by simp [hb]
+      simp only [hemp]
+      have hlt : (b.drop a).length < fuel := by simp; omega
+      rw [ih _ hlt]
+      have hcnt : (b.length + a - 1) / a = ((b.drop a).length + a - 1) / a + 1 := by
+        simp only [List.length_drop]
+        by_cases hle : a ≤ b.length
+        · have : b.length + a - 1 = (b.length - a + a - 1) + a := by omega
+          rw [this, Nat.add_div_right _ ha]
+        · have h1 : b.length - a = 0 := by omega
+          rw [h1]
+          have h2 : (0 + a - 1) / a = 0 := Nat.div_eq_of_lt (by omega)
+          rw [h2]
+          have h3 : b.length + a - 1 = (b.length - 1) + a := by omega
+          rw [h3, Nat.add_div_right _ ha, Nat.div_eq_of_lt (by omega)]
+      rw [hcnt, List.range_succ_eq_map]
+      simp only [List.map_cons, List.map_map, Nat.zero_mul, List.drop_zero, Bool.false_eq_true, if_false]
+      congr 1
+      apply List.map_congr_left
+      intro i _
+      simp only [Function.comp, List.drop_drop]
+      congr 2
+      rw [Nat.succ_mul]; omega
+
 /-- **split_correct**: segments of size `a`, the last may be shorter (repaired code) -/
 theorem split_correct {α} (a : Nat) (b : List α) (ha : 0 < a) :
     implSplitN a b = refSplitN (b.length + 1) a b := by
-  sorry
+  rw [refSplitN_formula a ha _ b (by omega)]
+  unfold implSplitN
+  by_cases hn : b.length = 0
+  · have : b = [] := List.eq_nil_of_length_eq_zero hn
+    subst this
+    simp; omega
+  · simp only [hn, if_false]
+    by_cases hge : a ≥ b.length
+    · simp only [hge, if_true]
+      have h3 : b.length + a - 1 = (b.length - 1) + a := by omega
+      rw [h3, Nat.add_div_right _ ha, Nat.div_eq_of_lt (by omega)]
+      simp [List.take_of_length_le hge]
+    · simp only [hge, if_false]
 
 /-- the pinned `array_split` version is wrong: 3:#[1 2 3 4] -/
 theorem split_pinned_wrong :
